@@ -32,7 +32,6 @@ Inductive texp :=
 | XOr (s1 s2 : list Z) (p : pen)    (* one of two texts, this pen *)
 | XAny (p : pen).                   (* content free, this pen *)
 
-Definition nthz {A} (l : list A) (i : Z) (d : A) : A := if i <? 0 then d else nth (Z.to_nat i) l d.
 
 Definition is_text_of (c : cellc) (p : pen) (s : list Z) (col : Z) : bool :=
   match c with AText q t k => pen_eqb p q && list_eqb Z.eqb s t && (k =? col) | _ => false end.
